@@ -296,4 +296,62 @@ theorem scaleSmall_eq (w si sm ns : Nat) (hw0 : w ≠ 0) (hw : w < 2 ^ 64) (hsi 
     refine ⟨_, _, _, rfl, h62, hm2, by omega, by omega, Or.inl ⟨rfl, ?_⟩⟩
     rw [neg_neg, zpow_natCast]; push_cast; ring
 
+/-- **`bellerophon_error_bound`, scaling part** (untruncated mantissa): after both multiplications and the
+normalisation, the significand is within `(−4, +errors)` units of the true scaled value
+`(w·si)·B·2^(eb + EXPONENT_BIAS − exp)`, where `B ∈ [b, b+1)` is the real value the truncated large power stands
+for; `4 ≤ errors ≤ 36`. -/
+theorem scale_bound (F : FTy) (w si sm ns b : Nat) (eb : Int) (B : ℚ)
+    (hw0 : w ≠ 0) (hw : w < 2 ^ 64) (hsi : 0 < si) (hsm : sm = si * 2 ^ ns) (hsm1 : 2 ^ 63 ≤ sm)
+    (hsm2 : sm < 2 ^ 64) (hns : ns ≤ 64) (hb1 : 2 ^ 63 ≤ b) (hb2 : b < 2 ^ 64)
+    (hB1 : (b : ℚ) ≤ B) (hB2 : B < b + 1) :
+    ∃ (mant errors : Nat) (pw : Int),
+      scaleLarge F (scaleSmall w si ⟨sm, -(ns : Int)⟩ 0).1 (scaleSmall w si ⟨sm, -(ns : Int)⟩ 0).2 ⟨b, eb⟩ =
+        .mid ⟨mant, pw⟩ errors ∧
+      2 ^ 63 ≤ mant ∧ mant < 2 ^ 64 ∧ 4 ≤ errors ∧ errors ≤ 36 ∧
+      -300 ≤ pw - eb - F.C.exponentBias ∧ pw - eb - F.C.exponentBias ≤ 200 ∧
+      (mant : ℚ) - 4 < ((w * si : Nat) : ℚ) * B * 2 ^ (F.C.exponentBias - pw + eb) ∧
+      ((w * si : Nat) : ℚ) * B * 2 ^ (F.C.exponentBias - pw + eb) < mant + errors := by
+  obtain ⟨a, e1, ea, hs, ha1, ha2, hea1, hea2, hcase⟩ := scaleSmall_eq w si sm ns hw0 hw hsi hsm hsm1 hsm2 hns
+  have he1 : e1 = 0 ∨ e1 = 4 := by rcases hcase with h | h; exact Or.inl h.1; exact Or.inr h.1
+  obtain ⟨c2, sh, hl, hc2, n1, n2, hsh⟩ := scaleLarge_eq F a b e1 ea eb ha1 ha2 hb1 hb2 he1
+  rw [hs]
+  simp only []
+  refine ⟨_, _, _, hl, n1, n2, ?_, ?_, by omega, by omega, ?_⟩
+  · have := Nat.two_pow_pos sh
+    split <;> omega
+  · have : 2 ^ sh ≤ 2 ^ 2 := Nat.pow_le_pow_right (by norm_num) hsh
+    split <;> omega
+  -- the exponent: EXPONENT_BIAS − pw + eb = −ea − 64 + sh
+  have hexp : F.C.exponentBias - (ea + eb + 64 - (sh : Int) + F.C.exponentBias) + eb = -ea + (-64 + (sh : Int)) := by
+    ring
+  rw [hexp, ← two_zpow_add, ← two_zpow_add]
+  have h64 : (2 : ℚ) ^ (-64 : Int) = 1 / 2 ^ 64 := by rw [zpow_neg]; norm_num
+  have hshq : (2 : ℚ) ^ (sh : Int) = 2 ^ sh := zpow_natCast 2 sh
+  rw [h64, hshq]
+  have hsh1 : (1 : ℚ) ≤ 2 ^ sh := one_le_pow₀ (by norm_num)
+  have hsh4 : (2 : ℚ) ^ sh ≤ 4 := by
+    have : (2 : ℚ) ^ sh ≤ 2 ^ 2 := pow_le_pow_right₀ (by norm_num) hsh
+    linarith
+  have hmant : ((c2 * 2 ^ sh : Nat) : ℚ) = (c2 : ℚ) * 2 ^ sh := by push_cast; ring
+  rw [hmant]
+  rcases hcase with ⟨h0, hv⟩ | ⟨h4, P1, hP1, haP, hv⟩
+  · -- exact small multiplication
+    subst h0
+    obtain ⟨e1', e2'⟩ := mul_error_exact a b c2 B ha2 hB1 hB2 hc2
+    have hy : ((w * si : Nat) : ℚ) * B * (2 ^ (-ea) * (1 / 2 ^ 64 * 2 ^ sh)) = (a : ℚ) * B / 2 ^ 64 * 2 ^ sh := by
+      rw [← hv]; ring
+    rw [hy]
+    simp only [if_true]
+    push_cast
+    constructor <;> nlinarith
+  · subst h4
+    obtain ⟨e1', e2'⟩ := mul_error_rounded P1 a b c2 B hP1 hb2 (by have := Nat.two_pow_pos 63; omega) haP hB1 hB2 hc2
+    have hy : ((w * si : Nat) : ℚ) * B * (2 ^ (-ea) * (1 / 2 ^ 64 * 2 ^ sh)) =
+        (P1 : ℚ) / 2 ^ 64 * B / 2 ^ 64 * 2 ^ sh := by
+      rw [← hv]; ring
+    rw [hy]
+    simp only [show ¬ ((4 : Nat) = 0) from by decide, if_false]
+    push_cast
+    constructor <;> nlinarith
+
 end LexVerif.Proof.Bell
